@@ -53,24 +53,24 @@ pub enum Gap {
 
 /// Double-precision RFC 6298 (alpha 1/8, beta 1/4, K 4, RTTVAR before SRTT, max(G, 4*RTTVAR), no rounding)
 #[derive(Clone, Copy, Debug)]
-struct Ref6298 {
-    configured: f64,
-    g: f64,
-    srtt: Option<f64>,
-    rttvar: f64,
-    rto: f64,
+pub struct Ref6298 {
+    pub configured: f64,
+    pub g: f64,
+    pub srtt: Option<f64>,
+    pub rttvar: f64,
+    pub rto: f64,
 }
 
 impl Ref6298 {
-    fn new(rto_ns: f64, g_ns: f64) -> Self {
+    pub fn new(rto_ns: f64, g_ns: f64) -> Self {
         Ref6298 { configured: rto_ns, g: g_ns, srtt: None, rttvar: 0.0, rto: rto_ns }
     }
-    fn reset(&mut self) {
+    pub fn reset(&mut self) {
         self.srtt = None;
         self.rttvar = 0.0;
         self.rto = self.configured;
     }
-    fn sample(&mut self, r: f64) {
+    pub fn sample(&mut self, r: f64) {
         match self.srtt {
             None => {
                 self.srtt = Some(r);
